@@ -868,3 +868,217 @@ Proof.
   - apply card_basic_refused; auto.
   - destruct n; [discriminate|]. apply principal_basic_refused; auto.
 Qed.
+
+(* ------------------------------------------------------------------ *)
+(** * The hypothesis on the backend is needed: panic witnesses         *)
+
+Definition plain_req (m p : string) : request :=
+  {| r_method := m; r_path := p; r_depth := ""; r_overwrite := ""; r_dest := DAbsent; r_ctype_set := false;
+     r_media := ""; r_media_err := true; r_body_empty := true; r_xml := XEmpty; r_ical_ok := false;
+     r_vcard_ok := false; r_url_ok := fun _ => true |}.
+
+Definition fs_fine : fs_env :=
+  {| fe_has_fs := true; fe_stat := BOk (Some {| fi_isdir := false |}); fe_open := None; fe_readdir := BOk [];
+     fe_create := BOk (Some {| fi_isdir := false |}, true); fe_removeall := None; fe_mkdir := None;
+     fe_copy := BOk true; fe_move := BOk true |}.
+
+(** a FileSystem that returns (nil, nil) from Stat makes GET panic; a backend error
+    with status code 0 makes WriteHeader panic; a nil options pointer makes
+    ServePrincipal panic *)
+Lemma panic_witnesses :
+  serve (CDav {| fe_has_fs := true; fe_stat := BOk None; fe_open := None; fe_readdir := BOk [];
+                 fe_create := BOk (None, true); fe_removeall := None; fe_mkdir := None;
+                 fe_copy := BOk true; fe_move := BOk true |} (plain_req "GET" "/a")) = Panicked /\
+  serve (CDav {| fe_has_fs := true; fe_stat := BErr (EDirect 0); fe_open := None; fe_readdir := BOk [];
+                 fe_create := BOk (None, true); fe_removeall := None; fe_mkdir := None;
+                 fe_copy := BOk true; fe_move := BOk true |} (plain_req "GET" "/a")) = Panicked /\
+  serve (CPrincipal true (plain_req "OPTIONS" "/")) = Panicked /\
+  serve (CDav fs_fine (plain_req "GET" "/a")) = Resp 200 [].
+Proof. repeat split; vm_compute; reflexivity. Qed.
+
+(* ------------------------------------------------------------------ *)
+(** * The oracle's verdict functions                                   *)
+
+Lemma calls_eqb_eq a c : calls_eqb a c = true -> a = c.
+Proof.
+  revert c; induction a as [|[n x y] a IH]; destruct c as [|[n' x' y'] c]; simpl; try discriminate; auto.
+  intros H. apply andb_true_iff in H. destruct H as [H1 H2].
+  apply andb_true_iff in H1. destruct H1 as [H1 H3]. apply andb_true_iff in H1. destruct H1 as [H1 H4].
+  apply String.eqb_eq in H1, H3, H4. subst. f_equal. auto.
+Qed.
+
+Lemma outcome_eqb_eq a c : outcome_eqb a c = true -> a = c.
+Proof.
+  destruct a, c; simpl; try discriminate; auto.
+  intros H. apply andb_true_iff in H. destruct H as [H1 H2].
+  apply N.eqb_eq in H1. apply calls_eqb_eq in H2. subst. reflexivity.
+Qed.
+
+Lemma acceptable_spec c o :
+  acceptable c o = true <->
+  exists s cs, o = Resp s cs /\ 100 <= s /\ s < 600 /\
+               (malformed c = true -> 400 <= s /\ s < 500 /\ cs = []).
+Proof.
+  unfold acceptable. split.
+  - destruct o as [s cs|]; [|discriminate]. intros H.
+    apply andb_true_iff in H. destruct H as [H H3]. apply andb_true_iff in H. destruct H as [H1 H2].
+    apply N.leb_le in H1. apply N.ltb_lt in H2. exists s, cs. repeat split; auto;
+      rewrite H in H3; apply andb_true_iff in H3; destruct H3 as [H3 H5];
+      apply andb_true_iff in H3; destruct H3 as [H3 H4].
+    + apply N.leb_le in H3; auto.
+    + apply N.ltb_lt in H4; auto.
+    + destruct cs; [reflexivity|discriminate].
+  - intros (s & cs & -> & H1 & H2 & H3).
+    apply N.leb_le in H1. apply N.ltb_lt in H2. rewrite H1, H2. simpl.
+    destruct (malformed c); [|reflexivity]. destruct H3 as (H3 & H4 & ->); auto.
+    apply N.leb_le in H3. apply N.ltb_lt in H4. rewrite H3, H4. reflexivity.
+Qed.
+
+(* ------------------------------------------------------------------ *)
+(** * REPORT documents: what is proved about the decoded structures    *)
+
+(** every failure of the report decoder, and every rejection by the decode*
+    functions, is a 400 before the backend is consulted *)
+Lemma cal_report_undecodable env r :
+  dx_failed (decode_xml_request r (um_cal_report (r_url_ok r) 0)) -> cal_handle_report env r = bad_request.
+Proof. unfold cal_handle_report. destruct (decode_xml_request r _); simpl; tauto. Qed.
+
+Lemma card_report_undecodable env r :
+  dx_failed (decode_xml_request r (um_card_report (r_url_ok r) 0)) -> card_handle_report env r = bad_request.
+Proof. unfold card_handle_report. destruct (decode_xml_request r _); simpl; tauto. Qed.
+
+Lemma cal_query_rejected env r q :
+  cal_data_of_prop (cq_sel q) = Ok false \/ decode_comp_filter (cq_filter q) = false ->
+  cal_handle_query env r q = bad_request.
+Proof.
+  unfold cal_handle_query. intros [H|H]; [rewrite H; reflexivity|].
+  destruct (cal_data_of_prop_ok (cq_sel q)) as [[|] ->]; [|reflexivity]. rewrite H. reflexivity.
+Qed.
+
+Lemma cal_multiget_rejected env m :
+  cal_data_of_prop (mg_sel m) = Ok false -> cal_handle_multiget env m = bad_request.
+Proof. unfold cal_handle_multiget. intros ->. reflexivity. Qed.
+
+Lemma card_query_rejected env r q :
+  addr_data_of_prop (aq_sel q) = SBad \/
+  (addr_data_of_prop (aq_sel q) = SGo /\ forallb decode_aprop_filter (af_props (aq_filter q)) = false) ->
+  card_handle_query env r q = bad_request.
+Proof. unfold card_handle_query. intros [H|[H1 H2]]; [rewrite H|rewrite H1, H2]; reflexivity. Qed.
+
+(** the exclusivity rules on the decoded filter, as an inductive reading of decodeCompFilter *)
+Inductive cf_exclusive : compFilterW -> Prop :=
+| cfx_here n tr pfs cfs : is_some tr || nonempty pfs || nonempty cfs = true ->
+                          cf_exclusive (CompFilterW n true tr pfs cfs)
+| cfx_prop n i tr pfs cfs p : In p pfs -> decode_cprop_filter p = false -> cf_exclusive (CompFilterW n i tr pfs cfs)
+| cfx_comp n i tr pfs cfs c : In c cfs -> cf_exclusive c -> cf_exclusive (CompFilterW n i tr pfs cfs).
+
+Lemma forallb_false_in {A} (f : A -> bool) l x : In x l -> f x = false -> forallb f l = false.
+Proof.
+  induction l; simpl; [tauto|]. intros [->|H] F; [rewrite F; reflexivity|].
+  rewrite IHl by auto. apply andb_false_r.
+Qed.
+
+Lemma cf_exclusive_rejected c : cf_exclusive c -> decode_comp_filter c = false.
+Proof.
+  induction 1; simpl.
+  - rewrite H. reflexivity.
+  - destruct (i && _); [reflexivity|]. rewrite (forallb_false_in _ _ _ H H0). reflexivity.
+  - destruct (i && _); [reflexivity|]. rewrite (forallb_false_in _ _ _ H IHcf_exclusive). apply andb_false_r.
+Qed.
+
+Lemma cprop_exclusive_rejected p :
+  cpf_ind p = true -> is_some (cpf_tm p) || is_some (cpf_tr p) || nonempty (cpf_params p) = true ->
+  decode_cprop_filter p = false.
+Proof. unfold decode_cprop_filter. intros -> ->. reflexivity. Qed.
+
+Lemma param_exclusive_rejected p :
+  paf_ind p = true -> is_some (paf_tm p) = true -> decode_param_filter p = false.
+Proof. unfold decode_param_filter. intros -> ->. reflexivity. Qed.
+
+Lemma comp_exclusive_rejected n ap ps ac cs :
+  (ap && nonempty ps) || (ac && nonempty cs) = true -> decode_comp (CompW n ap ps ac cs) = false.
+Proof.
+  simpl. destruct (ap && nonempty ps); [reflexivity|]. simpl. intros ->. reflexivity.
+Qed.
+
+(** ** invalid values make the element's decoder fail, whatever was decoded before *)
+
+Lemma fold_opt_fails {A T} (f : T -> A -> option T) l x :
+  In x l -> (forall acc, f acc x = None) -> forall acc, fold_opt f l acc = None.
+Proof.
+  induction l as [|a l IH]; simpl; [tauto|]. intros [->|H] F acc.
+  - rewrite F. reflexivity.
+  - destruct (f acc a); auto.
+Qed.
+
+Lemma um_struct_attr_fails {T} xn fa fk ft d (acc : T) ns l attrs kids a :
+  In a attrs -> (forall acc, fa acc a = None) -> um_struct xn fa fk ft d acc (XElem ns l attrs kids) = None.
+Proof.
+  intros I F. unfold um_struct, chk. destruct (MAXD <=? d); [reflexivity|].
+  destruct (name_ok xn ns l); [|reflexivity]. rewrite (fold_opt_fails fa attrs a I F). reflexivity.
+Qed.
+
+Lemma um_struct_kid_fails {T} xn fa fk ft d (acc : T) ns l attrs kids k :
+  In k kids -> (forall acc, fk acc k = None) -> um_struct xn fa fk ft d acc (XElem ns l attrs kids) = None.
+Proof.
+  intros I F. unfold um_struct, chk. destruct (MAXD <=? d); [reflexivity|].
+  destruct (name_ok xn ns l); [|reflexivity]. destruct (fold_opt fa attrs acc); [|reflexivity].
+  rewrite (fold_opt_fails fk kids k I F). reflexivity.
+Qed.
+
+Definition bad_attr (ok : string -> bool) (name : string) (a : xattr) : bool :=
+  String.eqb (a_local a) name && negb (ok (a_val a)).
+
+(** an invalid start or end on time-range or expand *)
+Lemma time_range_invalid d acc ns l attrs kids a :
+  In a attrs -> bad_attr parse_utc_ok "start" a || bad_attr parse_utc_ok "end" a = true ->
+  um_time_range d acc (XElem ns l attrs kids) = None /\ um_expand d acc (XElem ns l attrs kids) = None.
+Proof.
+  intros I B.
+  assert (F : forall acc : timeRangeW,
+             (if String.eqb (a_local a) "start" then
+                if parse_utc_ok (a_val a) then Some {| tr_start := Some (a_val a); tr_end := tr_end acc |} else None
+              else if String.eqb (a_local a) "end" then
+                if parse_utc_ok (a_val a) then Some {| tr_start := tr_start acc; tr_end := Some (a_val a) |} else None
+              else Some acc) = None).
+  { intros acc0. unfold bad_attr in B. apply orb_true_iff in B.
+    destruct B as [B|B]; apply andb_true_iff in B; destruct B as [B1 B2]; apply negb_true_iff in B2.
+    - rewrite B1, B2. reflexivity.
+    - destruct (String.eqb (a_local a) "start"); rewrite ?B1, B2; reflexivity. }
+  split; eapply um_struct_attr_fails; eauto.
+Qed.
+
+(** an invalid negate-condition (and, for CardDAV, match-type) on text-match *)
+Lemma text_match_invalid card tns d acc ns l attrs kids a :
+  In a attrs ->
+  bad_attr yes_no_ok "negate-condition" a || (card && bad_attr match_type_ok "match-type" a) = true ->
+  um_text_match card tns d acc (XElem ns l attrs kids) = None.
+Proof.
+  intros I B. eapply um_struct_attr_fails; eauto. intros acc0.
+  unfold bad_attr, yes_no_ok in B. apply orb_true_iff in B. destruct B as [B|B].
+  - apply andb_true_iff in B. destruct B as [B1 B2]. apply negb_true_iff in B2.
+    apply String.eqb_eq in B1. rewrite B1. simpl.
+    destruct (parse_yes_no (a_val a)); [discriminate|reflexivity].
+  - apply andb_true_iff in B. destruct B as [-> B]. apply andb_true_iff in B. destruct B as [B1 B2].
+    apply negb_true_iff in B2. apply String.eqb_eq in B1. rewrite B1. simpl. rewrite B2. reflexivity.
+Qed.
+
+(** an invalid test on a CardDAV filter or prop-filter *)
+Lemma card_test_invalid d ns l attrs kids a :
+  In a attrs -> bad_attr filter_test_ok "test" a = true ->
+  (forall acc, um_card_filter d acc (XElem ns l attrs kids) = None) /\
+  (forall acc, um_aprop_filter d acc (XElem ns l attrs kids) = None).
+Proof.
+  intros I B. unfold bad_attr in B. apply andb_true_iff in B. destruct B as [B1 B2].
+  apply negb_true_iff in B2. apply String.eqb_eq in B1.
+  split; intros acc; eapply um_struct_attr_fails; eauto; intros acc0; rewrite B1; simpl; rewrite B2; reflexivity.
+Qed.
+
+(** an invalid nresults in a limit *)
+Lemma limit_invalid d acc ns l attrs kids kns ka kk :
+  In (XElem kns "nresults" ka kk) kids -> parse_uint (chardata kk) = None ->
+  um_limit d acc (XElem ns l attrs kids) = None.
+Proof.
+  intros I B. eapply um_struct_kid_fails; eauto. intros acc0. simpl.
+  unfold chk. destruct (MAXD <=? d + 1); [reflexivity|exact B].
+Qed.
